@@ -99,7 +99,10 @@ def method_case(rng, name, tier_big=False):
     elif name in ("fmf", "multimoora"):
         c = gen.dm_case(rng, positive=True, **kw)
     elif name in ("electre1", "electre2"):
-        c = gen.dm_case(rng, wmode="sum1", modes=("tiny012", "tiny123", "dyadic", "int"), **kw)
+        kw2 = dict(kw)
+        if name == "electre2" and rng.random() < 0.6:
+            kw2.update(nmin=6, nmax=max(kw["nmax"], 10))   # >=3 distillation rounds need several alternatives
+        c = gen.dm_case(rng, wmode="sum1", modes=("tiny012", "tiny123", "dyadic", "int"), **kw2)
         grid = [k / 8.0 for k in range(9)]
         if name == "electre1":
             if rng.random() < 0.3:
